@@ -90,7 +90,7 @@ def all_ops ():
       ops.append(("mods", mid, prio)); ops.append(("dels", mid, prio))
     ops.append(("mod", mid, 1)); ops.append(("del", mid))
   ops += [("mod", "A", 2), ("mod", "C", 2), ("mod-out", "A", 3), ("mod-out", "ALL", 2), ("add-emerg",), ("del", "ALL"), ("del-out", 2), ("del-out", 3),
-          ("rx", 1), ("rx", 2), ("tick", 1.1), ("tick", 2.1), ("sweep",)]
+          ("rx", 1), ("rx", 2), ("tick", 1.1), ("tick", 2.1), ("sweep",), ("ticksweep", 2.1)]
   return ops
 OPS = all_ops()
 
@@ -132,7 +132,11 @@ class World (object):
     rxinfo = None
     if k == "tick":
       self.clock.advance(op[1]); return ("tick",)
-    if k == "sweep":
+    if k == "ticksweep":
+      # what the switch's periodic expiry timer amounts to: time passes, then a sweep
+      self.clock.advance(op[1]); now = self.clock.now
+      st.sweep(); exp = ref.sweep(now)
+    elif k == "sweep":
       st.sweep(); exp = ref.sweep(now)
     elif k == "rx":
       frame, pkt = (FRAME1, PKT1) if op[1] == 1 else (FRAME2, PKT2)
@@ -258,6 +262,8 @@ ROOTS = [
   (),
   (("add", "A", 1, "rem-idle"), ("add", "C", 2, "rem-hard"), ("add", "D", 1, "plain")),
   (("add", "B", 1, "rem-idle"), ("add", "C", 1, "rem-idle"), ("add", "A", 2, "plain"), ("tick", 1.1)),
+  # only permanent entries, and a sweep has already looked at them
+  (("add", "A", 1, "plain"), ("add", "C", 2, "plain"), ("sweep",)),
 ]
 
 def make_expand (root):
@@ -275,7 +281,7 @@ def run (cfg):
   boot()
   rep = Report(PID, "model_checking")
   depth = cfg.pick(3, 4)
-  rep.rule = ("breadth-first search, every reachable table state expanded once, over histories of <=%d operations (from the empty table; one less from two populated tables) from %d: "
+  rep.rule = ("breadth-first search, every reachable table state expanded once, over histories of <=%d operations (from the empty table; one less from three populated tables) from %d: "
               "ADD x matches {in_port=1; in_port=1,dl_type=IP; dl_type=IP; exact} x priority {1,2} x {plain, CHECK_OVERLAP, "
               "SEND_FLOW_REM+idle 2, SEND_FLOW_REM+hard 3}, ADD+EMERG, MODIFY, MODIFY_STRICT, DELETE, DELETE_STRICT, DELETE with "
               "out_port filter, a frame hitting all four matches, a frame hitting only dl_type=IP, clock +1.1 / +2.1, expiry sweep; "
